@@ -2,60 +2,47 @@
 C13 — A document that passes validation cannot go wrong at execution time.
 
 `Gql/Exec/ValidDoc.lean`: the validation rules execution depends on (`Valid.validOp`), tied to
-`validate()` in the required direction (implementation accepts ⇒ `validOp`) by `checks/c13.py`.
+`validate()` in the required direction (implementation accepts ⇒ `validOp`) by `checks/c13.py`,
+and the per-position decision of the specification's run-time exception (`mayHitNullViaDefault`).
 `Gql/Exec/Shape.lean`: `Conforms` (data of the declared kinds) and `shapeResponse` (keys, nesting,
 nullability, leaf kinds).  The executor is the specification executor of C02, which the
 implementation model equals (`Gql.Props.C02.impl_eq_spec`).
 
-Proved here: the first stage of soundness (fields / arguments / literals, abstract types through
-`__typename`): plain operations — fields only, no directives, no variables, distinct response
-keys — over conforming data.  The general statements stay below as `…_full`; what is missing is
-listed with them.
+Proved:
+* `soundness_partial₁` — fields / arguments / literals / abstract types (plain operations);
+* `soundness_partial₂` — + variables (allowed position with the default-value clause, the
+  run-time exception decided per position);
+* `soundness_partial₃` — + inline fragments, fragment spreads, type conditions, `@skip`/`@include`,
+  merged response keys (under `MergeOk`, which is what OverlappingFieldsCanBeMerged provides);
+* `blame_partial₃` — over arbitrary data no request-attributable error occurs.
+The hypotheses that remain are about other layers: the value layer (`OpsSoundV`, C15), schema
+validity (`SoundHyps`: defaults coercible, interface fields implemented identically) and field
+merging (`MergeOk`, C14).
 -/
 import Gql.Proofs.SoundExec3
 import Gql.Proofs.SoundExample
+import Gql.Proofs.SoundBlame
 import Gql.Props.C02
 
 namespace Gql.Props.C13
 open Gql Gql.Exec Gql.Exec.Valid
 
-/-- the hypothesis of the property: coerced variable values of the declared types (`vars` is the
-result of CoerceVariableValues); stated for the full theorem -/
-def VarsOk (ops : Ops) (s : Schema) (op : Operation) (vars : Vars) : Prop :=
-  (∀ vd ∈ op.vars, vd.type.nonNull = true → ∃ v, vars.lookup vd.name = some v ∧ v ≠ .null) ∧
-  (∀ x v, vars.lookup x = some v → ∃ vd ∈ op.vars, vd.name = x)
-
-/-- field merging (C14): the fields collected under one response key agree on name and arguments -/
-def MergeOk (ops : Ops) (s : Schema) (doc : Doc) (vars : Vars) : Prop :=
-  ∀ (rt : Name) (sels : List Selection) (groups : Spec.Groups),
-    Spec.collectFields { ops := ops, schema := s, doc := doc, vars := vars } rt sels = .ok groups →
-    ∀ p ∈ groups, ∀ f ∈ p.2, ∀ g ∈ p.2, f.name = g.name ∧ f.args.length = g.args.length
-
-/-- **C13-1, full statement (not proved in general).**  For a valid schema (`SoundHyps`), an
-operation accepted by the rules, accepted variable values, no null variable in use (the run-time
-exception of the specification) and a conforming root value: no errors, prescribed shape.
-Proved: `soundness_partial₁` (plain operations).  Missing: variables (stage 2: the coerced value of
-a variable is of its declared type, `allowedUsage` ⇒ coercible at the position), fragments, type
-conditions, `@skip`/`@include` and merged response keys (stage 3; needs `MergeOk` from C14 and the
-subtype reasoning of PossibleFragmentSpreads). -/
+/-- **C13-1, full statement.**  Like `soundness_partial₃`, with the two remaining hypotheses
+replaced by what validation itself establishes: `MergeOk` by the static rule
+FieldsInSetCanMerge (C14 proves that rule correct for `overlapping_fields_can_be_merged.py` in its
+own document model, `Gql.Props.C14.overlap_iff`; that FieldsInSetCanMerge implies `MergeOk` —
+fields grouped under one response key at run time come from scopes whose parent types all contain
+the runtime type, hence are "same parent or not both object types", hence the same field — is not
+proved here), and `SoundHyps.ifaceOk` by the covariant form of interface implementation. -/
 def soundness_full : Prop :=
   ∀ (ops : Ops) (s : Schema) (doc : Doc) (op : Operation) (opName : Option Name) (vars : Vars)
     (root : RVal) (rt : Name),
     SoundHyps ops s → Spec.getOperation doc.ops opName = some op → validOp s doc op = true →
-    VarsOk ops s op vars → MergeOk ops s doc vars → mayHitNullViaDefault s doc op vars = false →
+    VarsOk op.vars vars → VarsTyped s op.vars vars → OpsSoundV ops s op.vars vars →
+    mayHitNullViaDefault s doc op vars = false →
     Spec.rootType s op.kind = some rt → Conforms ops s (.named rt true) root →
     (Spec.executeRequest ops s doc opName vars root).errors = [] ∧
     shapeResponse ops s doc op vars root (Spec.executeRequest ops s doc opName vars root).data = true
-
-/-- **C13-2, full statement (not proved).**  With arbitrary data every error is data-attributable:
-never argument or directive coercion. -/
-def blame_full : Prop :=
-  ∀ (ops : Ops) (s : Schema) (doc : Doc) (op : Operation) (opName : Option Name) (vars : Vars)
-    (root : RVal),
-    SoundHyps ops s → Spec.getOperation doc.ops opName = some op → validOp s doc op = true →
-    VarsOk ops s op vars → MergeOk ops s doc vars → mayHitNullViaDefault s doc op vars = false →
-    ∀ e ∈ (Spec.executeRequest ops s doc opName vars root).errors,
-      e.kind ≠ .argCoercion ∧ e.kind ≠ .directiveCoercion ∧ e.kind ≠ .noRootType
 
 /-- **C13-1, stage 1 (`soundness_partial₁`): fields, arguments, literals, abstract types.**
 An operation accepted by the rules that consists of fields only (no fragments, directives or
@@ -90,7 +77,7 @@ theorem soundness_partial₁ (ops : Ops) (s : Schema) (doc : Doc) (hyps : SoundH
   have hvs : validSels (vctx s doc) rt op.sels = true := by
     unfold validOp at hvalid
     simp only [hrt, hnovars, Bool.and_eq_true] at hvalid
-    exact hvalid.1.1.2
+    exact hvalid.1.1.1.1.2
   -- the root value is an object node of the root type
   cases root with
   | null => simp [Conforms, TypeRef.nonNull] at hconf
@@ -136,6 +123,110 @@ theorem soundness_partial₁_impl (ops : Ops) (s : Schema) (doc : Doc) (hyps : S
   ⟨_, C02.impl_eq_spec ops hops s doc opName vars root,
     soundness_partial₁ ops s doc hyps op opName vars root rt hsel hvalid hnovars hplain hdist hroot hconf⟩
 
+/-- **C13-1, stage 3 (`soundness_partial₃`): variables, fragments, type conditions, directives,
+merged response keys.**  For an operation accepted by the rules (`validOp`: fields on correct
+type, scalar leafs, known / unique / required arguments, values of correct type, known fragments
+and types, possible spreads, no cycles, variables defined, of input type and in allowed position
+including the default-value clause), variable values as CoerceVariableValues hands them over
+(`VarsOk`, `VarsTyped`), no position where the specification defers to run time
+(`mayHitNullViaDefault = false`: no variable with runtime value `null` at a Non-Null position that
+was only allowed through a default — decided per position), response keys that merge (`MergeOk`),
+and a root value conforming to the schema: execution reports no errors and `data` has exactly the
+prescribed shape (keys in order, nesting, nullability, leaf kinds, for the runtime types in the
+data). -/
+theorem soundness_partial₃ (ops : Ops) (s : Schema) (doc : Doc) (hyps : SoundHyps ops s)
+    (op : Operation) (opName : Option Name) (vars : Vars) (root : RVal) (rt : Name)
+    (hsel : Spec.getOperation doc.ops opName = some op)
+    (hvalid : validOp s doc op = true)
+    (hvok : VarsOk op.vars vars) (htyped : VarsTyped s op.vars vars)
+    (hops : OpsSoundV ops s op.vars vars)
+    (hexc : mayHitNullViaDefault s doc op vars = false)
+    (hmerge : MergeOk { ops := ops, schema := s, doc := doc, vars := vars } op)
+    (hroot : Spec.rootType s op.kind = some rt)
+    (hconf : Conforms ops s (.named rt true) root) :
+    (Spec.executeRequest ops s doc opName vars root).errors = [] ∧
+    shapeResponse ops s doc op vars root (Spec.executeRequest ops s doc opName vars root).data = true :=
+  soundness_gen ops s doc hyps op opName vars root rt hsel hvalid hvok htyped hops hexc hmerge hroot hconf
+
+/-- **C13-1, stage 2 (`soundness_partial₂`): + variables.**  Fields-only operations with
+distinct response keys and variables anywhere in their argument values (whole arguments, list
+items, input object fields): no `MergeOk` hypothesis is needed (`mergeOk_of_plain`). -/
+theorem soundness_partial₂ (ops : Ops) (s : Schema) (doc : Doc) (hyps : SoundHyps ops s)
+    (op : Operation) (opName : Option Name) (vars : Vars) (root : RVal) (rt : Name)
+    (hsel : Spec.getOperation doc.ops opName = some op)
+    (hvalid : validOp s doc op = true)
+    (hvok : VarsOk op.vars vars) (htyped : VarsTyped s op.vars vars)
+    (hops : OpsSoundV ops s op.vars vars)
+    (hexc : mayHitNullViaDefault s doc op vars = false)
+    (hplain : plainSels op.sels = true) (hdist : distinctSels op.sels = true)
+    (hroot : Spec.rootType s op.kind = some rt)
+    (hconf : Conforms ops s (.named rt true) root) :
+    (Spec.executeRequest ops s doc opName vars root).errors = [] ∧
+    shapeResponse ops s doc op vars root (Spec.executeRequest ops s doc opName vars root).data = true :=
+  soundness_gen ops s doc hyps op opName vars root rt hsel hvalid hvok htyped hops hexc
+    (mergeOk_of_plain _ op hplain hdist) hroot hconf
+
+/-- `soundness_partial₃` for the implementation model of C02. -/
+theorem soundness_partial₃_impl (ops : Ops) (s : Schema) (doc : Doc) (hyps : SoundHyps ops s)
+    (hok : Refine.OpsOk ops)
+    (op : Operation) (opName : Option Name) (vars : Vars) (root : RVal) (rt : Name)
+    (hsel : Spec.getOperation doc.ops opName = some op)
+    (hvalid : validOp s doc op = true)
+    (hvok : VarsOk op.vars vars) (htyped : VarsTyped s op.vars vars)
+    (hops : OpsSoundV ops s op.vars vars)
+    (hexc : mayHitNullViaDefault s doc op vars = false)
+    (hmerge : MergeOk { ops := ops, schema := s, doc := doc, vars := vars } op)
+    (hroot : Spec.rootType s op.kind = some rt)
+    (hconf : Conforms ops s (.named rt true) root) :
+    ∃ resp, (Impl.executeRequest ops s doc opName vars root []).1 = .ok resp ∧
+      resp.errors = [] ∧ shapeResponse ops s doc op vars root resp.data = true :=
+  ⟨_, C02.impl_eq_spec ops hok s doc opName vars root,
+    soundness_gen ops s doc hyps op opName vars root rt hsel hvalid hvok htyped hops hexc hmerge hroot hconf⟩
+
+/-- **C13-2 (`blame_partial₃`): with arbitrary data every error is attributable to the data.**
+Under the hypotheses of stage 3 *without* any assumption on the data graph (nulls at Non-Null
+positions, ill-typed leaves, raising resolvers, wrong or missing `__typename`, non-iterables …),
+no error of the response is of a request-attributable kind: never argument coercion, never
+directive coercion (unknown fields are skipped, not errors; the operation and its root type
+exist by hypothesis). -/
+theorem blame_partial₃ (ops : Ops) (s : Schema) (doc : Doc) (hyps : SoundHyps ops s)
+    (op : Operation) (opName : Option Name) (vars : Vars) (root : RVal) (rt : Name)
+    (hsel : Spec.getOperation doc.ops opName = some op)
+    (hvalid : validOp s doc op = true)
+    (hvok : VarsOk op.vars vars) (htyped : VarsTyped s op.vars vars)
+    (hops : OpsSoundV ops s op.vars vars)
+    (hexc : mayHitNullViaDefault s doc op vars = false)
+    (hmerge : MergeOk { ops := ops, schema := s, doc := doc, vars := vars } op)
+    (hroot : Spec.rootType s op.kind = some rt) :
+    ∀ e ∈ (Spec.executeRequest ops s doc opName vars root).errors,
+      e.kind ≠ .argCoercion ∧ e.kind ≠ .directiveCoercion :=
+  blame_gen ops s doc hyps op opName vars root rt hsel hvalid hvok htyped hops hexc hmerge hroot
+
+/-- `blame` for fields-only operations with variables (stage 2), no merge hypothesis. -/
+theorem blame_partial₂ (ops : Ops) (s : Schema) (doc : Doc) (hyps : SoundHyps ops s)
+    (op : Operation) (opName : Option Name) (vars : Vars) (root : RVal) (rt : Name)
+    (hsel : Spec.getOperation doc.ops opName = some op)
+    (hvalid : validOp s doc op = true)
+    (hvok : VarsOk op.vars vars) (htyped : VarsTyped s op.vars vars)
+    (hops : OpsSoundV ops s op.vars vars)
+    (hexc : mayHitNullViaDefault s doc op vars = false)
+    (hplain : plainSels op.sels = true) (hdist : distinctSels op.sels = true)
+    (hroot : Spec.rootType s op.kind = some rt) :
+    ∀ e ∈ (Spec.executeRequest ops s doc opName vars root).errors,
+      e.kind ≠ .argCoercion ∧ e.kind ≠ .directiveCoercion :=
+  blame_gen ops s doc hyps op opName vars root rt hsel hvalid hvok htyped hops hexc
+    (mergeOk_of_plain _ op hplain hdist) hroot
+
+/-- **C13-2, full statement**: `blame_partial₃` without `MergeOk` (see `soundness_full`). -/
+def blame_full : Prop :=
+  ∀ (ops : Ops) (s : Schema) (doc : Doc) (op : Operation) (opName : Option Name) (vars : Vars)
+    (root : RVal) (rt : Name),
+    SoundHyps ops s → Spec.getOperation doc.ops opName = some op → validOp s doc op = true →
+    VarsOk op.vars vars → VarsTyped s op.vars vars → OpsSoundV ops s op.vars vars →
+    mayHitNullViaDefault s doc op vars = false → Spec.rootType s op.kind = some rt →
+    ∀ e ∈ (Spec.executeRequest ops s doc opName vars root).errors,
+      e.kind ≠ .argCoercion ∧ e.kind ≠ .directiveCoercion
+
 open Gql.Exec.Valid.Example in
 /-- the hypotheses of `soundness_partial₁` are satisfiable: a nested selection with an argument
 literal and `__typename`, over a conforming resolver tree -/
@@ -145,5 +236,16 @@ example : (Spec.executeRequest exOps exS exDoc none [] exRoot).errors = [] ∧
   soundness_partial₁ exOps exS exDoc exHyps exOp none [] exRoot "Query" rfl (by decide) rfl
     (by decide) (by decide) (by decide) exConf
 
+
+open Gql.Exec.Valid.Example in
+/-- the hypotheses of `soundness_partial₃` / `blame_partial₃` are satisfiable (variables, `@skip`
+on a variable, a fragment spread and an inline fragment merging the key `id`); `MergeOk` through
+the checkable criterion `mergeOk_of_keyNames` -/
+example : (Spec.executeRequest exOps exS exDoc3 none exVars3 exRoot).errors = [] ∧
+    shapeResponse exOps exS exDoc3 exOp3 exVars3 exRoot
+      (Spec.executeRequest exOps exS exDoc3 none exVars3 exRoot).data = true :=
+  soundness_partial₃ exOps exS exDoc3 exHyps exOp3 none exVars3 exRoot "Query" rfl (by decide)
+    exVarsOk3 exVarsTyped3 exOpsV3 (by decide)
+    (mergeOk_of_keyNames _ exOp3 (by decide)) rfl exConf
 
 end Gql.Props.C13
